@@ -97,14 +97,14 @@ func menuFor(profile string) []opGen {
 			{"delegate", 6, opDelegate}, {"undelegate", 6, opUndelegate}, {"redelegate", 2, opRedelegate},
 			{"unjail", 8, opUnjail}, {"opt-in", 6, opOptIn}, {"opt-out", 1, opOptOut}, {"assign-key", 6, opAssignKey},
 			{"update-consumer", 3, opUpdateConsumer}, {"gov-params", 2, opGovParams}, {"gov-staking", 1, opGovStaking},
-			{"create-consumer", 1, opCreateConsumer}, {"infraction", 8, opInfraction},
+			{"create-consumer", 1, opCreateConsumer}, {"infraction", 8, opInfraction}, {"infraction-pair", 3, opInfractionPair},
 		}
 	case "lifecycle":
 		return []opGen{
 			{"create-consumer", 14, opCreateConsumer}, {"update-consumer", 14, opUpdateConsumer}, {"remove-consumer", 5, opRemoveConsumer},
 			{"opt-in", 10, opOptIn}, {"opt-out", 3, opOptOut}, {"assign-key", 4, opAssignKey}, {"commission", 2, opCommission},
 			{"delegate", 9, opDelegate}, {"undelegate", 6, opUndelegate},
-			{"to-gov", 3, opToGov}, {"gov-topn", 4, opGovTopN}, {"gov-staking", 2, opGovStaking}, {"infraction", 12, opInfraction},
+			{"to-gov", 3, opToGov}, {"gov-topn", 4, opGovTopN}, {"gov-staking", 2, opGovStaking}, {"infraction", 12, opInfraction}, {"infraction-pair", 5, opInfractionPair},
 		}
 	case "rewards":
 		return []opGen{
